@@ -291,7 +291,7 @@ def per_action_limits(fcv: int, xs: int, li: int, ni: int) -> str:
     return ""
 
 
-BKINDS = ["valid-same-location", "valid-other-line", "unknown-stage", "valid-method"]
+BKINDS = ["valid-same-location", "valid-other-line", "unknown-stage", "valid-method-f", "valid-method-g", "valid-method-f-again"]
 
 
 def response(bk: int, ck: int, pos: int, route_b: int) -> str:
@@ -299,7 +299,7 @@ def response(bk: int, ck: int, pos: int, route_b: int) -> str:
     A response of three tracepoints: A is valid on f.py:7; B and C are valid on the same location / another line / a
     method, or uninterpretable (unknown stage). Every interpretable one is installed and acts; the uninterpretable one
     affects only itself.  B may instead be registered in code.
-    PRE: 0 <= bk <= 3 and 0 <= ck <= 3 and 0 <= pos <= 2 and 0 <= route_b <= 1
+    PRE: 0 <= bk <= 5 and 0 <= ck <= 5 and 0 <= pos <= 2 and 0 <= route_b <= 1
     POST: _ == ""
     """
     world.begin_path()
@@ -314,8 +314,10 @@ def response(bk: int, ck: int, pos: int, route_b: int) -> str:
             line = 8
         elif kind == 2:
             a["stage"] = "bogus_stage"
-        elif kind == 3:
+        elif kind in (3, 5):
             a["method_name"] = "f"
+        elif kind == 4:
+            a["method_name"] = "g"
         return line, a
     specs = [("A", 0), ("B", bk), ("C", ck)]
     order = [[0, 1, 2], [1, 0, 2], [1, 2, 0]][pos]
@@ -340,24 +342,20 @@ def response(bk: int, ck: int, pos: int, route_b: int) -> str:
     world.reached()
     if any(t is None for t in w.handler._tp_config):
         return "C11:response:None-trigger-installed"
-    # drive the three interesting events
-    try:
-        w.event(FakeFrame("/app/f.py", "f", 1, {}), "call", None)
-        w.event(FakeFrame("/app/f.py", "f", 7, {}), "line", None)
-        w.event(FakeFrame("/app/f.py", "f", 8, {}), "line", None)
-    except Exception as e:
-        return "C11:response:event-raised:" + type(e).__name__
-    got = sorted(s.tracepoint.id for s in w.push.snapshots)
-    want = []
-    for name, kind in specs:
-        if kind == 2:
-            continue
-        want.append("tp-1" if (name == "B" and route_b == 1) else name)
-    if got != sorted(want):
-        missing = [x for x in want if x not in got]
-        if missing:
-            return "C11:response:valid-tracepoint-not-acting"
-        return "C11:response:unexpected-action"
+    # drive the interesting events one by one: each tracepoint acts at ITS location only
+    events = [("call", "f", 1, (3, 5)), ("call", "g", 1, (4,)), ("line", "f", 7, (0,)), ("line", "f", 8, (1,))]
+    for (ev, fn, line, kinds) in events:
+        n0 = len(w.push.snapshots)
+        try:
+            w.event(FakeFrame("/app/f.py", fn, line, {}), ev, None)
+        except Exception as e:
+            return "C11:response:event-raised:" + type(e).__name__
+        got = sorted(s.tracepoint.id for s in w.push.snapshots[n0:])
+        want = sorted(("tp-1" if (name == "B" and route_b == 1) else name) for name, kind in specs if kind in kinds)
+        if got != want:
+            if [x for x in want if x not in got]:
+                return "C11:response:valid-tracepoint-not-acting-at-its-location"
+            return "C11:response:tracepoint-acting-at-another-tracepoint's-location"
     return ""
 
 
@@ -423,7 +421,7 @@ CONDITIONS = [
          bounds="stage 8 values (incl. unknown) x snapshot 3 x span 3 x method_name 2 x log_msg 2 x metrics 0..1 (0..2 thorough) x 2 install routes; 1 matching event"),
     dict(fn="per_action_limits", cubes=["fcv == %d and li == %d and ni == %d" % (f, l, n) for f in range(4) for l in range(2) for n in range(2)],
          twins=["reach"], bounds="fire_count in {1,2,-1,absent}; 3 hits with every truth pattern of the condition; log/no_collect variants"),
-    dict(fn="response", cubes=["bk == %d and ck == %d" % (b, c) for b in range(4) for c in range(4)],
+    dict(fn="response", cubes=["bk == %d and ck == %d" % (b, c) for b in range(6) for c in range(6)],
          twins=["reach", "mutant:none_trigger_kept@bk == 2 and ck == 0"],
-         bounds="3 tracepoints per response, B/C in {same location, other line, unknown stage, method}; 3 orders; B via service or code"),
+         bounds="3 tracepoints per response, B/C in {same location, other line, unknown stage, method f, method g, method f again}; each event decides on its own; 3 orders; B via service or code"),
 ]
